@@ -77,7 +77,7 @@ def err1_subset(P, R, L, prefixes, rule="ERR-1"):
                 findings.setdefault(f.key(), []).append(f)
         bad = 0
         for k, fl in sorted(findings.items()):
-            if k in ALLOW:
+            if _allow_row(k) is not None:
                 continue
             bad += 1
             R.check(rule, k, False, fl[0].site.where(), "an observed Err is returned, recorded or stored on every path", fl[0].detail)
@@ -85,6 +85,24 @@ def err1_subset(P, R, L, prefixes, rule="ERR-1"):
             R.check(rule, p, True, "%s:%d" % (b.file, b.line_lo), "every Result site is propagated / asserted / recorded", "%d result sites" % len(sites))
     R.call_sites += n
     return n
+
+
+def _closure_free(k):
+    import re
+    return re.sub(r"\{closure#\d+\}", "{closure}", k)
+
+
+def _allow_row(k):
+    """the allow-table row for a finding key.  Closures are numbered in source order within their host function: a closure added
+    in front of the reviewed one (`opt.map_or(false, |x| ..)` for a `match`) renumbers it, so rows match on host, callee and kind
+    with the closure's number left out."""
+    if k in ALLOW:
+        return k
+    nk = _closure_free(k)
+    for a in ALLOW:
+        if "{closure#" in a and _closure_free(a) == nk:
+            return a
+    return None
 
 
 def err1(P, R, L):
@@ -117,9 +135,9 @@ def err1(P, R, L):
         # of every such caller covers the same callee inside the helper
         hosts = sorted({c for (h_, c, _) in getattr(P, "inlined", []) if h_ == p})
         for k, fl in sorted(findings.items()):
-            if k in ALLOW:
-                used_allow.add(k)
-                R.allow("ERR-1|" + k, ALLOW[k])
+            if _allow_row(k) is not None:
+                used_allow.add(_allow_row(k))
+                R.allow("ERR-1|" + _allow_row(k), ALLOW[_allow_row(k)])
                 continue
             if hosts:
                 callee_part = k.split("|")[1] if "|" in k else ""
